@@ -91,6 +91,7 @@ type vC04Oracle struct {
 	p      *Plugin
 	lag    uint64 // how far this oracle's view of finality trails
 	failNS bool   // next NextSeqNum call fails
+	errKind int   // rotates the kind of the scripted error (plain, deadline, cancelled)
 	failMs bool   // next MsgsBetweenSeqNums call fails
 }
 
@@ -123,7 +124,8 @@ func vC04NewOracle(w *vC04World, id int, maxTree uint64, noRead map[cciptypes.Ch
 		NextSeqNumFn: func(chains []cciptypes.ChainSelector) ([]cciptypes.SeqNum, error) {
 			if o.failNS {
 				o.failNS = false
-				return nil, vErr
+				o.errKind++
+				return nil, vErrN(o.errKind)
 			}
 			out := make([]cciptypes.SeqNum, len(chains))
 			for i, c := range chains {
@@ -143,7 +145,7 @@ func vC04NewOracle(w *vC04World, id int, maxTree uint64, noRead map[cciptypes.Ch
 			}
 			if o.failMs {
 				o.failMs = false
-				return nil, vErr
+				return nil, vErrNext()
 			}
 			fin := w.finalLen[chain]
 			if fin >= o.lag {
